@@ -78,6 +78,16 @@ Theorem strictly_sorted_permutation_is_sort : forall (l l' : list (keyv * value)
 Proof. exact (@strict_sorted_perm_is_sort value). Qed.
 Print Assumptions strictly_sorted_permutation_is_sort.
 
+(* ... so sort() leaves a canonical (strictly ascending) array exactly as it is, and never changes the number of entries *)
+Theorem sort_leaves_canonical_alone : forall (l : list (keyv * value)), shape_ok (map fst l) ->
+  Sorted (fun p q => key_lt_spec (fst p) (fst q) = true) l -> sort_pairs key_lt l = l.
+Proof. exact (fun l Hs Hsorted => eq_sym (@strict_sorted_perm_is_sort value l l Hs Hsorted (Permutation_refl l))). Qed.
+Print Assumptions sort_leaves_canonical_alone.
+
+Theorem sort_keeps_length : forall (l : list (keyv * value)), length (sort_pairs key_lt l) = length l.
+Proof. exact (fun l => Permutation_length (@sort_perm_now value l)). Qed.
+Print Assumptions sort_keeps_length.
+
 (* Python's comparisons on sort keys are the specified order: < is it, >= (the rejection test of both helpers) is its negation *)
 Theorem comparer_order : forall a b, flat_key a = true -> same_shape a b = true ->
   key_cmp Lt a b = key_lt_spec a b /\ key_cmp Ge a b = negb (key_lt_spec a b).
